@@ -36,6 +36,16 @@ def cases(tier):
         for pi in (True, False):
             cs.append(F.pair(ch, end=end, pull_initial=pi))
             cs.append(F.pair(ch, end=end, pull_initial=pi, order=("B", "A"), starts=(0, 1)))
+    # three components with the full step menu {1,2,3}: only then the pattern  C.time < A.time < B.time < C.next_time  exists, in which
+    # an update of A is neither "furthest back" nor needed unless B really lacks A's data
+    for c1, c2 in (([], []), ([["F", 1]], []), ([], [["F", 1]]), ([["L"]], []), ([["F", 0.5], ["F", 0.5]], []), ([["P", 1, 0]], [])):
+        for order in (("A", "B", "C"), ("C", "B", "A"), ("B", "A", "C")):
+            cs.append(F.line3(c1, c2, end=5 if q else 7, order=order, menu=(1, 2, 3)))
+    # delay-to-pull with an extra delay on the first link of a three-component line (the producer may be neither least advanced nor needed)
+    for c1 in ([["P", 1, 1]], [["P", 1, 2]], [["P", 2, 1]]):
+        for order in (("A", "B", "C"), ("C", "B", "A"), ("B", "C", "A")):
+            cs.append(F.line3(c1, [], end=6, order=order, menu=(1, 2, 3)))
+        cs.append(F.line3(c1, [["F", 1]], end=6, starts=(0, 0, 1)))
     # a source that starts later than its consumer, behind delay adapters (requests before the source's start time are clamped to it)
     for ch in ([["F", 1]], [["F", 2.5]], [["F", 0.5], ["F", 1.5]], [["P", 1, 0]], [["P", 2, 0.5]], [["S", 2], ["F", 1]]):
         for starts in ((2, 0), (1, 0), (3, 0)):
